@@ -514,7 +514,83 @@ def r8_positive_proposals(repo: Repo, rep):
         rep.check(R, not bad, fi.site(p.ret_node), fi.fq, "each count is at least 1 for every n and every ratio of boundary lengths", f"can be 0: {bad}", f"count may be 0: {bad}")
 
 
+def r9_finite_for_every_count(repo: Repo, rep):
+    R = rep.rule("R-C01-9", "grid / random formulas of the domain samplers stay finite for every requested count n >= 1: no quotient whose denominator is a polynomial in n "
+                 "alone with a root at n = 1, 2, 3 or 4", floor=1,
+                 why="index / (n - 1) is 0/0 for n = 1: the single returned point is (nan, nan, nan) - not a point of the domain")
+    from ..absdom.poly import RF, NotPoly, to_rf
+    from ..util import deref, single_defs
+    from fractions import Fraction
+    examined = 0
+    for mname, m in repo.modules.items():
+        if ".problem.domains." not in mname:
+            continue
+        for ci in m.classes.values():
+            for fi in ci.methods.values():
+                if not (fi.name.startswith(("sample_grid", "_sample_grid", "sample_random", "_sample_random", "_grid", "_point_grid")) or "grid" in fi.name):
+                    continue
+                tmp = single_defs(fi.node)
+                rebound = {t.id for a in ast.walk(fi.node) if isinstance(a, ast.Assign) for t in a.targets if isinstance(t, ast.Name)} & set(fi.params)
+                for d in ast.walk(fi.node):
+                    if not (isinstance(d, ast.BinOp) and isinstance(d.op, (ast.Div, ast.FloorDiv, ast.Mod))):
+                        continue
+                    examined += 1
+                    den = deref(d.right, tmp)
+                    names = {x.id for x in ast.walk(den) if isinstance(x, ast.Name)}
+                    if names != {"n"}:
+                        continue
+                    try:
+                        rf = to_rf(den, lambda x: RF.atom(x.id) if isinstance(x, ast.Name) else None)
+                    except NotPoly:
+                        continue
+                    rep.saw(fi)
+                    zeros = []
+                    for k in (1, 2, 3, 4):
+                        try:
+                            v = rf.subst({"n": RF.const(k)}) if hasattr(rf, "subst") else None
+                        except Exception:
+                            v = None
+                        if v is None:
+                            v = _eval_poly_in_n(den, k)
+                        val = v.const_value() if isinstance(v, RF) else v
+                        if val is not None and val == 0:
+                            zeros.append(k)
+                    rep.check(R, not zeros, fi.site(d), fi.fq, "denominator non-zero for n = 1..4", f"`{dump(d.right)}` vanishes at n = {zeros}", f"denominator {dump(den)[:50]} zero at n={zeros}")
+    rep.check(R, examined > 0, "src/torchphysics/problem/domains", "-", "quotients of the samplers examined", f"{examined} quotients", "no quotient examined")
+
+
+def _eval_poly_in_n(e: ast.AST, k: int):
+    """value of an integer expression in the single name n (None when not evaluable)"""
+    from fractions import Fraction
+    try:
+        if isinstance(e, ast.Constant) and isinstance(e.value, (int, float)) and not isinstance(e.value, bool):
+            return Fraction(str(e.value))
+        if isinstance(e, ast.Name) and e.id == "n":
+            return Fraction(k)
+        if isinstance(e, ast.UnaryOp) and isinstance(e.op, ast.USub):
+            v = _eval_poly_in_n(e.operand, k)
+            return None if v is None else -v
+        if isinstance(e, ast.BinOp):
+            a, b = _eval_poly_in_n(e.left, k), _eval_poly_in_n(e.right, k)
+            if a is None or b is None:
+                return None
+            if isinstance(e.op, ast.Add):
+                return a + b
+            if isinstance(e.op, ast.Sub):
+                return a - b
+            if isinstance(e.op, ast.Mult):
+                return a * b
+            if isinstance(e.op, ast.Div) and b != 0:
+                return a / b
+            if isinstance(e.op, ast.Pow) and b.denominator == 1 and b >= 0:
+                return a ** int(b)
+    except Exception:
+        return None
+    return None
+
+
 def run(repo: Repo, rep):
+    r9_finite_for_every_count(repo, rep)
     r8_positive_proposals(repo, rep)
     r1_facts(repo, rep)
     r5_primitive_parametrisations(repo, rep)
@@ -553,6 +629,7 @@ _P = "src/torchphysics/problem/domains/domainoperations/product.py"
 _T = "src/torchphysics/problem/domains/domainoperations/translate.py"
 _RS = "src/torchphysics/problem/samplers/random_samplers.py"
 MUTANTS = [
+    dict(id="C01-M60", file="src/torchphysics/problem/domains/domain3D/sphere.py", old="index / max(n - 1, 1) * 2", new="index / (n - 1) * 2", rule="R-C01-9", what="0/0 for a one-point grid (the repaired defect)"),
     dict(id="C01-M1", file=_CU, old="                invert=True,\n                device=device,\n            )\n        return self._sample_random_with_d", new="                invert=False,\n                device=device,\n            )\n        return self._sample_random_with_d", rule="R-C01-1", what="cut samples inside B"),
     dict(id="C01-M2", file=_I, old="                invert=False,\n                device=device,\n            )\n        return self._sample_grid_with_d", new="                invert=True,\n                device=device,\n            )\n        return self._sample_grid_with_d", rule="R-C01-1", what="intersection grid samples outside B"),
     dict(id="C01-M3", file=_H, old="    inside_b = domain_b._contains(grid_a, params)\n    if invert:\n        inside_b = torch.logical_not(inside_b)", new="    inside_b = domain_b._contains(grid_a, params)\n    if not invert:\n        inside_b = torch.logical_not(inside_b)", rule="R-C01-1", what="polarity flipped in the shared helper"),
